@@ -73,6 +73,14 @@ Proof.
 Qed.
 Print Assumptions C16_goto_refused.
 
+(* --- the acyclicity hypothesis ------------------------------------------------------------ *)
+
+(* `exists r, Ranked g r` is exactly "no node reaches itself" (on a non-empty link structure) *)
+Theorem C16_ranked_is_acyclic : forall g,
+  Wf g -> 0 < dsize g -> ((forall y, ~ Reach g y y) <-> exists r, Ranked g r).
+Proof. exact acyclic_iff_ranked. Qed.
+Print Assumptions C16_ranked_is_acyclic.
+
 (* --- the hypotheses are satisfiable by a non-trivial DAG ------------------------------------
    a -> b, a -> c, b -> d, c -> d, a -> d   (two parallel paths and a direct edge) *)
 Definition ex_dag : dag :=
